@@ -210,7 +210,7 @@ def execute(rec, case):
     loop = asyncio.new_event_loop()
     try:
         loop.run_until_complete(asyncio.wait_for(
-            _run(rec, r, content, kinds, decl, blobkind, steps, case), 120))
+            _run(rec, r, content, kinds, decl, blobkind, steps, case), 900))
     finally:
         try:
             loop.run_until_complete(loop.shutdown_default_executor())
@@ -402,6 +402,8 @@ async def _run(rec, r, content, kinds, decl, blobkind, steps, case):
         if p['next'] == len(p['chunks']) and p['close_after']:
             writers[i].close_handle()
 
+    seen_handed, disk_checked = [0], [None]
+
     async def observe(final=False):
         """S1/S2 after every step."""
         rec.hit('S1.steps_checked')
@@ -420,13 +422,15 @@ async def _run(rec, r, content, kinds, decl, blobkind, steps, case):
                 rec.violation('C01/S1/length-out-of-range', f'blob accepted with declared length {L} outside (0, 2 MiB]',
                               {'L': L, 'decl': decl})
                 return False
-        for hb in handed:
+        for hb in handed[seen_handed[0]:]:        # each saved copy is hashed once (2 MiB blobs made every step cost a full hash)
+            seen_handed[0] += 1
             if len(hb) != L or hashlib.sha384(hb).hexdigest() != blob_hash:
                 rec.violation('C01/S1/saved-bytes-differ', 'bytes handed to the blob store do not have the declared length / SHA-384 name',
                               {'len': len(hb), 'L': L, 'kinds': kinds})
                 return False
         idle = all(t.done() for t in write_tasks)
-        if present and idle and v:
+        if present and idle and v and (final or disk_checked[0] != (len(write_tasks), len(handed))):
+            disk_checked[0] = (len(write_tasks), len(handed))
             with open(path, 'rb') as f:
                 disk = f.read()
             if len(disk) != L or hashlib.sha384(disk).hexdigest() != blob_hash:
